@@ -385,6 +385,25 @@ class Prop(core.Prop):
                                                                        'own' if vgtop == top0 else 'other'),
                                    **scope))
                     break
+            # an integer-typed variable is interpolated like the same numbers held as floats (no truncation)
+            f5 = ioapi_u.build(rec)
+            dims5 = tuple(f5.variables['O3'].dimensions)
+            shp5 = f5.variables['O3'].shape
+            ramp5 = (3 + 10 * np.arange(shp5[1]))[None, :, None, None] * np.ones(shp5, 'i')
+            for nm_, tc_ in (('CNT', 'i'), ('CNTF', 'f')):
+                v5 = f5.createVariable(nm_, tc_, dims5)
+                v5.units, v5.long_name, v5.var_desc = 'count'.ljust(16), nm_.ljust(16), nm_.ljust(80)
+                v5[...] = ramp5
+            for itype in ('linear', 'conserve'):
+                g5 = f5.interpSigma(np.array(case['to'], 'f'), interptype=itype)
+                ntrans += 1
+                a5 = np.asarray(g5.variables['CNT'][...], 'd')
+                b5 = np.asarray(g5.variables['CNTF'][...], 'd')
+                if a5.shape != b5.shape or relerr(a5, b5) > 1e-6:
+                    vs.append(viol('integer-variable-truncated', ('interpSigma', itype),
+                                   'from %s to %s: integer variable %s, the same numbers as floats %s'
+                                   % (fr, to, a5[0, :, 0, 0], b5[0, :, 0, 0]), **scope))
+                    break
             if np.atleast_1d(g.VGLVLS).size != len(to) or len(g.dimensions['LAY']) != len(to) - 1:
                 vs.append(viol('levels', ('interpSigma', 'conserve'), 'VGLVLS %s LAY %d' % (
                     g.VGLVLS, len(g.dimensions['LAY'])), **scope))
